@@ -13,6 +13,7 @@
 -/
 import PigeonVerif.Proofs.StoreLemmas
 import PigeonVerif.Proofs.MemoSound
+import PigeonVerif.Proofs.MemoCount
 
 namespace PV
 namespace RT
@@ -171,6 +172,53 @@ theorem C06_evaluation_is_local_partial (E : Env) (own : Nat → Option String) 
     exact ⟨b, A, e2, l1.symm, hA1, hA2⟩
   · cases e1
 
+/-! ### Memoize bounds the work -/
+
+/-- **C06 (e), partial: the packrat bound.** Standard template without left-recursion support, no budget, Memoize(true);
+    node identifiers unique, no throw/recover (`Expr.Ok`); the grammar has no same-position cycle: `rn` is a closed
+    nullability oracle and `rank` strictly decreases along every first-graph edge (`CountHyp`, the hypothesis of
+    `C07_no_same_position_cycle_terminates`). No assumption on the code blocks. Then a parse that returns has evaluated at
+    most (number of expression nodes) × (input length + 1) expressions: each (expression, offset) pair at most once.
+    (`ids` lists the node identifiers; the invariant behind it: the `.expr` keys of the memo table are pairwise
+    distinct and `ExprCnt` equals their number — `Proofs/MemoCount.lean`.) -/
+theorem C06_packrat_bound_partial (E : Env) (own : Nat → Option String) (node : Nat → Option Expr)
+    (rn : String → Bool) (rank : String → Nat) (h : CountHyp E own node rn rank)
+    (ids : List Nat) (hids : ∀ id e, node id = some e → id ∈ ids)
+    (f : Nat) (n : String) (r : Rule) (hfr : E.findRule n = some r) (v : Val) (ok : Bool) (s' : PState)
+    (hres : parseRuleWrap (setMemo E true) (parseExpr (setMemo E true) f) f r (startState (setMemo E true)) = .done v ok s') :
+    s'.exprCnt ≤ ids.length * (E.input.length + 1) :=
+  packrat_bound h ids hids f hfr v ok s' hres
+
+/-- the same read off `Parse` (with `Recover(false)`, so that a returned value is never a recovered panic) -/
+theorem C06_packrat_bound_parse_partial (E : Env) (own : Nat → Option String) (node : Nat → Option Expr)
+    (rn : String → Bool) (rank : String → Nat) (h : CountHyp E own node rn rank)
+    (ids : List Nat) (hids : ∀ id e, node id = some e → id ∈ ids) (hrec : E.opts.recover = false)
+    (f : Nat) (v : Val) (errs : List String) (s' : PState) (first : Rule) (rest : List Rule) (hr : E.rules = first :: rest)
+    (r : Rule) (hfr : E.findRule (entryName E first) = some r)
+    (hres : parse (setMemo E true) f = .ret v errs s') :
+    s'.exprCnt ≤ ids.length * (E.input.length + 1) := by
+  unfold parse at hres
+  simp only [] at hres
+  rw [show (setMemo E true).rules = E.rules from rfl, hr] at hres
+  simp only [] at hres
+  rw [show (setMemo E true).findRule (entryName (setMemo E true) first) = E.findRule (entryName E first) from rfl, hfr] at hres
+  simp only [] at hres
+  cases ho : parseRuleWrap (setMemo E true) (parseExpr (setMemo E true) f) f r (startState (setMemo E true)) with
+  | oof => rw [ho] at hres; simp [finish] at hres
+  | panic p s =>
+    rw [ho] at hres
+    simp only [finish, show (setMemo E true).opts.recover = E.opts.recover from rfl, hrec] at hres
+    simp at hres
+  | done v0 ok s0 =>
+    have hb := packrat_bound h ids hids f hfr v0 ok s0 ho
+    rw [ho] at hres
+    simp only [finish] at hres
+    split at hres
+    · split at hres
+      · cases hres; simpa [addErrAt] using hb
+      · cases hres; exact hb
+    · cases hres; exact hb
+
 /-! ### the hypotheses are satisfiable, and the theorem is not about a parser that never hits the table -/
 
 namespace ExampleC06
@@ -232,6 +280,52 @@ theorem wf (inp : String) : ∀ n r, (env false inp).findRule n = some r → r.e
       simp [e1, e2, e3, e4, e5, e6, e7, lit, Expr.Ok, OkL, Keyed, own, node, Expr.id]
     · simp [hS, hR] at h
 
+theorem wfT (inp : String) : ∀ n r, (env false inp).findRule n = some r → r.expr.Ok own node (fun _ => true) n := by
+  intro n r h
+  simp only [Env.findRule, env, rules, List.reverse_cons, List.reverse_nil, List.nil_append, List.cons_append,
+    List.find?] at h
+  by_cases hS : "S" = n
+  · subst hS
+    simp at h
+    subst h
+    simp [e8, e9, e10, e11, e12, e13, lit, Expr.Ok, OkL, Keyed, own, node, Expr.id]
+  · by_cases hR : "R" = n
+    · subst hR
+      simp at h
+      subst h
+      simp [e1, e2, e3, e4, e5, e6, e7, lit, Expr.Ok, OkL, Keyed, own, node, Expr.id]
+    · simp [hS, hR] at h
+
+def rank (n : String) : Nat := if n = "R" then 1 else 0
+
+/-- the example grammar has no same-position cycle: `R` can start with `S`, `S` with nothing -/
+theorem countHyp (inp : String) : CountHyp (env false inp) own node (fun _ => false) rank where
+  cfg := cfg inp
+  ok := wfT inp
+  closed := by
+    intro n r h hn
+    simp only [Env.findRule, env, rules, List.reverse_cons, List.reverse_nil, List.nil_append, List.cons_append,
+      List.find?] at h
+    by_cases hS : "S" = n
+    · subst hS; simp at h; subst h
+      simp [e8, e9, e10, e11, e12, e13, lit, Expr.nul, nulAny, nulAll] at hn
+    · by_cases hR : "R" = n
+      · subst hR; simp at h; subst h
+        simp [e1, e2, e3, e4, e5, e6, e7, lit, Expr.nul, nulAny, nulAll] at hn
+      · simp [hS, hR] at h
+  ranked := by
+    intro n r h m hm
+    simp only [Env.findRule, env, rules, List.reverse_cons, List.reverse_nil, List.nil_append, List.cons_append,
+      List.find?] at h
+    by_cases hS : "S" = n
+    · subst hS; simp at h; subst h
+      simp [e8, e9, e10, e11, e12, e13, lit, Expr.first, firstAny, firstSeq, Expr.nul] at hm
+    · by_cases hR : "R" = n
+      · subst hR; simp at h; subst h
+        simp [e1, e2, e3, e4, e5, e6, e7, lit, Expr.first, firstAny, firstSeq, Expr.nul] at hm
+        subst hm; simp [rank]
+      · simp [hS, hR] at h
+
 /-- `setMemo (env false inp) m` is `env m inp` -/
 theorem setMemo_env (m : Bool) (inp : String) : setMemo (env false inp) m = env m inp := rfl
 
@@ -251,6 +345,17 @@ example (v1 v2 : Val) (errs1 errs2 : List String) (s1 s2 : PState)
     v1 = v2 :=
   (C06_memoize_same_result_any_depth_partial (env false "aab?") own node (fun _ => false) (cfg _) (pure _) (wf _) 40 40
     v1 v2 errs1 errs2 s1 s2 h1 h2).1
+
+theorem ids_cover : ∀ id e, node id = some e → id ∈ [1, 2, 3, 4, 5, 6, 7, 8, 9, 10, 11, 12, 13] := by
+  intro id e h
+  unfold node at h
+  split at h <;> first | (cases h; done) | simp
+
+/-- the bound applies to the example: at most 13 × (4 + 1) = 65 evaluations on `aab?` (it takes 20, `memo_is_used`) -/
+example (f : Nat) (r : Rule) (hfr : (env false "aab?").findRule "R" = some r) (v : Val) (ok : Bool) (s' : PState)
+    (hres : parseRuleWrap (setMemo (env false "aab?") true) (parseExpr (setMemo (env false "aab?") true) f) f r
+      (startState (setMemo (env false "aab?") true)) = .done v ok s') : s'.exprCnt ≤ 13 * (4 + 1) :=
+  C06_packrat_bound_partial _ own node (fun _ => false) rank (countHyp _) _ ids_cover f "R" r hfr v ok s' hres
 
 end ExampleC06
 
